@@ -125,9 +125,14 @@ func Time(name string) time.Time { return timeOfNS(intOf(name)) }
 
 func discText(name string) string {
 	d := intOf(name)
-	s := fmt.Sprintf("%018s", d.String())
+	one := new(big.Int).Exp(big.NewInt(10), big.NewInt(18), nil)
+	q, r := new(big.Int).QuoRem(d, one, new(big.Int))
+	s := fmt.Sprintf("%018s", r.String())
 	s = strings.TrimRight(s, "0")
-	return "0." + s
+	if s == "" {
+		s = "0"
+	}
+	return q.String() + "." + s
 }
 
 // PricingText is an arbitrary pricing text accepted by the pricing JSON schema with
@@ -162,6 +167,10 @@ func PricingText(name string, nT, nV int) string {
 	return sb.String()
 }
 
+// PricingTextLoose is a pricing text the keeper's parser reads but the pricing JSON schema may refuse:
+// discounts range over (0, 2) and volumes may be 0.
+func PricingTextLoose(name string, nT, nV int) string { return PricingText(name, nT, nV) }
+
 func And(a, b bool) bool     { return a && b }
 func Or(a, b bool) bool      { return a || b }
 func Implies(a, b bool) bool { return !a || b }
@@ -193,11 +202,17 @@ func Assume(c bool) {
 		Unmet = append(Unmet, strconv.Itoa(nAssume))
 	}
 }
+
+// StopReplay ends a native replay at the violated assertion (the engine continues under the assertion, a
+// state the native run is not in).
+type StopReplay struct{}
+
 func Assert(c bool, clause string) {
 	if !c {
 		Failed = append(Failed, clause)
 		if clause == R.Clause {
 			hit = true
+			panic(StopReplay{}) // the violation being replayed is reproduced: the run ends here
 		}
 	}
 }
@@ -216,6 +231,9 @@ func IsSymbolic() bool { return false }
 func Try(f func()) (panicked bool) {
 	defer func() {
 		if r := recover(); r != nil {
+			if _, stop := r.(StopReplay); stop {
+				panic(r)
+			}
 			panicked = true
 		}
 	}()
@@ -269,6 +287,10 @@ func Env() (keeper.Keeper, sdk.Context) {
 
 var theCtx sdk.Context
 
+// CheckOverflow switches on the model of the SDK's 255-bit range checks (panics "Int overflow") for the
+// rest of the path; natively the SDK makes them anyway.
+func CheckOverflow() {}
+
 // WithTx attaches the transaction hash and message index the host application provides.
 func WithTx(ctx sdk.Context, txHash []byte, msgIndex int64) sdk.Context {
 	c := context.WithValue(ctx.Context(), types.TxHash, txHash)
@@ -311,6 +333,12 @@ func Deliver(ctx sdk.Context, h sdk.Handler, msg sdk.Msg) (res *sdk.Result, err 
 	func() {
 		defer func() {
 			if r := recover(); r != nil {
+				if _, stop := r.(StopReplay); stop {
+					panic(r)
+				}
+				if _, stop := r.(StopReplay); stop {
+					panic(r)
+				}
 				panicked = true
 			}
 		}()
